@@ -1167,7 +1167,7 @@ pub fn gen(a: &Args) -> String {
         let mut out = Out::default();
         let env = e2e::new_env();
         embassy_time::MockDriver::get().reset();
-        out.buf.push_str("#rule one case = an access-control configuration (fabrics, entries, group tables, built through the real API) + generated node metadata (0..4 endpoints x 0..3 clusters x 0..4 attributes / 0..3 commands with declared and random access bits, timed-only / fabric-scoped marks, partially disabled by the feature map; 1 in 8 nodes has duplicate ids) + requests run through the real expand_read / expand_write / expand_invoke with real request TLVs (also with the node composition replaced between the expander's calls, and end to end through the real InteractionModel with a logging handler, timed requests under virtual time, PASE sessions without fabric, event reads, chunked writes with a TimedRequest flag per chunk and the clock moving between the chunks): 1..4 paths (concrete, each wildcard shape, absent ids, repeats), requester in {PASE with/without fabric, CASE, Group, missing fabric}, timed flag, read filter; non-trivial = the case produced both items and statuses\n");
+        out.buf.push_str("#rule one case = an access-control configuration (fabrics, entries, group tables, built through the real API) + generated node metadata (0..4 endpoints x 0..3 clusters x 0..4 attributes / 0..3 commands with declared and random access bits, timed-only / fabric-scoped marks, partially disabled by the feature map; 1 in 8 nodes has duplicate ids) + requests run through the real expand_read / expand_write / expand_invoke with real request TLVs (also with the node composition replaced between the expander's calls, and end to end through the real InteractionModel with a logging handler, timed requests under virtual time, PASE sessions without fabric, event reads with isFabricFiltered set / cleared over events with, without and with an unreadable FabricIndex, chunked writes with a TimedRequest flag per chunk and the clock moving between the chunks; and a write during which the ACL of the requester's fabric is emptied between the expander's calls): 1..4 paths (concrete, each wildcard shape, absent ids, repeats), requester in {PASE with/without fabric, CASE, Group, missing fabric}, timed flag, read filter; non-trivial = the case produced both items and statuses\n");
         let n_cases: u64 = if thorough { 100000 } else { 10000 };
         for id in 1..=n_cases {
             let mut cr = r.fork();
